@@ -21,6 +21,29 @@ type tracer struct {
 	ev    []string
 	stack map[string]bool
 	depth int
+	cur   []*ast.FuncDecl // the functions being traced, innermost last
+}
+
+// localString: the string literal a local variable of the function being traced is initialised with (query := "SELECT …")
+func (t *tracer) localString(name string) (string, bool) {
+	if len(t.cur) == 0 {
+		return "", false
+	}
+	var out string
+	found := false
+	ast.Inspect(t.cur[len(t.cur)-1].Body, func(n ast.Node) bool {
+		if as, ok := n.(*ast.AssignStmt); ok && !found {
+			for i, l := range as.Lhs {
+				if id, ok := l.(*ast.Ident); ok && id.Name == name && i < len(as.Rhs) {
+					if txt, ok := literalText(as.Rhs[i]); ok {
+						out, found = txt, true
+					}
+				}
+			}
+		}
+		return !found
+	})
+	return out, found
 }
 
 var sqlMethods = map[string]int{"Exec": 0, "Query": 0, "QueryRow": 0, "Prepare": 0, "ExecContext": 1, "QueryContext": 1, "QueryRowContext": 1}
@@ -134,7 +157,9 @@ func (t *tracer) fn(pkg, name, pre string) {
 	}
 	t.stack[key] = true
 	t.depth++
+	t.cur = append(t.cur, fd)
 	t.node(pkg, fd.Body, pre)
+	t.cur = t.cur[:len(t.cur)-1]
 	t.depth--
 	delete(t.stack, key)
 }
@@ -231,7 +256,11 @@ func (t *tracer) call(pkg string, e *ast.CallExpr, pre string) {
 	}
 	if idx, ok := sqlMethods[sel]; ok && recv != "" {
 		if len(e.Args) > idx {
-			if txt, found := literalText(e.Args[idx]); found {
+			txt, found := literalText(e.Args[idx])
+			if id, ok := e.Args[idx].(*ast.Ident); ok && !found {
+				txt, found = t.localString(id.Name)
+			}
+			if found {
 				up := strings.ToUpper(strings.TrimSpace(txt))
 				for _, v := range []string{"SELECT", "INSERT", "UPDATE", "DELETE", "CREATE", "PRAGMA", "REPLACE", "DROP", "ALTER", "BEGIN", "COMMIT"} {
 					if strings.HasPrefix(up, v) {
